@@ -149,7 +149,7 @@ func runShard(bin, prop, tier string, seed uint64, idx, n int, race bool, work s
 	}
 	cmd := exec.Command(bin, args...)
 	cmd.Dir = root
-	cmd.Env = append(os.Environ(), "GORACE=halt_on_error=0 log_path="+filepath.Join(work, fmt.Sprintf("race-%d", idx)), "GOTRACEBACK=all")
+	cmd.Env = append(os.Environ(), "GORACE=halt_on_error=0 exitcode=0 log_path="+filepath.Join(work, fmt.Sprintf("race-%d", idx)), "GOTRACEBACK=all")
 	ef, _ := os.Create(errf)
 	cmd.Stdout = ef
 	cmd.Stderr = ef
